@@ -121,6 +121,11 @@ def rrNexts {α : Type} (xs : List α) (shardIndex numShards startIndex : Int) :
     let r := rrNext xs shardIndex numShards startIndex idx
     r.1 :: rrNexts xs shardIndex numShards startIndex n r.2
 
+/-- `DataIterator.state.start_index` (io.py, repaired by finding C10-N2):
+`max(self._index, self.config.state.start_index)` — `_index` only catches up with the
+`start_index` the iterator was restored with on the first `next()`. -/
+def rrStateIndex (startIndex : Int) (idx : Nat) : Int := max (idx : Int) startIndex
+
 /-- `ShardedIterable(data, ShardConfig(i, k, start))`: `__post_init__` rejects `num_shards < 1`. -/
 def rrMake (numShards : Int) : Except ErrKind Unit :=
   if numShards < 1 then .error .value else .ok ()
